@@ -47,9 +47,12 @@ Definition check (kept : list (bool * nat)) (all_done : bool) (log : list bool) 
   && alt true log                                        (* never left twice / joined twice in a row *)
   && Bool.eqb sub (negb (match kept with [] => true | _ => false end)).  (* left iff no handle remains *)
 
-(** Runs against the real gossip manager observe less: kept handles and the number of
-    GossipEvent::Left events. *)
-Definition check_real (kept : list (bool * nat)) (all_done : bool) (left : nat) : bool :=
+(** Runs against the real gossip manager: whether publishing through a handle succeeds is not a
+    reliable sign of a live session there (a stopped session's listener keeps the channel open),
+    so the oracle uses what the manager itself records: the number of GossipEvent::Left events
+    and whether the topic is still registered for the own node in the address book ([sub]). *)
+Definition check_real (kept : list (bool * nat)) (all_done : bool) (left : nat) (sub : bool) : bool :=
   all_done
-  && forallb (fun k => fst k && (1 <=? snd k)) kept
+  && forallb (fun k => 1 <=? snd k) kept
+  && Bool.eqb sub (negb (match kept with [] => true | _ => false end))
   && (match kept with [] => 1 <=? left | _ => true end).
